@@ -186,6 +186,91 @@ pub fn run(rep: &mut Report) {
         t.add("Default::default (Ps2Decoder, ScancodeSet1, ScancodeSet2, Modifiers)", 4);
     }
 
+    // ---------------------------------------------------------------- soak: the same input repeated far beyond any u8/u16 counter
+    // (a stuck data line, a key held for minutes, a driver calling clear() on every timeout …)
+    const SOAK: u32 = 70_000;
+    {
+        let words: [u16; 8] = [0x000, 0x7FF, crate::model::encode_frame(0x00), crate::model::encode_frame(0xFF), crate::model::encode_frame(0x1C) ^ 0x200, 0x001, 0x400, crate::model::encode_frame(0xAA)];
+        for w in words {
+            let r = guarded(|| {
+                let mut d = Ps2Decoder::new();
+                let mut kb = Keyboard::new(ScancodeSet2::new(), dyn_layout(0, 0), HandleControl::Ignore);
+                for _ in 0..SOAK {
+                    for i in 0..11 {
+                        let _ = d.add_bit((w >> i) & 1 == 1);
+                        let _ = kb.add_bit((w >> i) & 1 == 1);
+                    }
+                    let _ = d.add_word(w);
+                    let _ = kb.add_word(w);
+                }
+                for _ in 0..SOAK {
+                    d.clear();
+                    kb.clear();
+                    let _ = d.add_bit(true);
+                }
+            });
+            t.add("Ps2Decoder::add_bit", SOAK as u64 * 12);
+            t.add("Keyboard::add_bit", SOAK as u64 * 11);
+            t.add("Ps2Decoder::add_word", SOAK as u64);
+            t.add("Keyboard::add_word", SOAK as u64);
+            t.add("Ps2Decoder::clear", SOAK as u64);
+            t.add("Keyboard::clear", SOAK as u64);
+            if let Err(p) = r {
+                t.panic("Ps2Decoder/Keyboard (soak)", format!("frame=0x{:03X} repeated {} times", w, SOAK), &p, J::obj().with("kind", J::s("soak")).with("word", J::u(w as u64)));
+            }
+        }
+        fn soak_bytes<D: Dec>(t: &mut Tally, name: &'static str) {
+            for b in 0..=255u8 {
+                let r = guarded(|| {
+                    let mut d = D::fresh();
+                    let mut kb: Keyboard<DynLayout, D> = Keyboard::new(D::fresh(), dyn_layout(0, 0), HandleControl::Ignore);
+                    for _ in 0..SOAK {
+                        let _ = d.advance_state(b);
+                        if let Ok(Some(ev)) = kb.add_byte(b) {
+                            let _ = kb.process_keyevent(ev);
+                        }
+                    }
+                });
+                t.add(name, SOAK as u64);
+                t.add("Keyboard::add_byte", SOAK as u64);
+                if let Err(p) = r {
+                    t.panic(name, format!("byte=0x{:02X} repeated {} times", b, SOAK), &p, J::obj().with("kind", J::s("soak")).with("set", J::u(D::SET as u64)).with("byte", J::u(b as u64)));
+                }
+            }
+        }
+        soak_bytes::<ScancodeSet1>(&mut t, "ScancodeSet1::advance_state");
+        soak_bytes::<ScancodeSet2>(&mut t, "ScancodeSet2::advance_state");
+        let uni2 = uni.clone();
+        let threads = n_threads();
+        let shards = par_map(threads, move |ti| {
+            let mut t = Tally::new();
+            for (ki, k) in uni2.iter().enumerate() {
+                if ki % threads != ti {
+                    continue;
+                }
+                for s in STATES {
+                    let r = guarded(|| {
+                        let mut dec = EventDecoder::new(dyn_layout(ki % 10, 0), HandleControl::MapLettersToUnicode);
+                        for i in 0..SOAK {
+                            let _ = dec.process_keyevent(KeyEvent::new(*k, s));
+                            if i % 1024 == 0 {
+                                dec.set_ctrl_handling(if i % 2048 == 0 { HandleControl::Ignore } else { HandleControl::MapLettersToUnicode });
+                            }
+                        }
+                    });
+                    t.add("EventDecoder::process_keyevent", SOAK as u64);
+                    if let Err(p) = r {
+                        t.panic("EventDecoder::process_keyevent", format!("event={}({:?}) repeated {} times", state_str(s), k, SOAK), &p, J::Null);
+                    }
+                }
+            }
+            t
+        });
+        for sh in shards {
+            t.merge(sh);
+        }
+    }
+
     // ---------------------------------------------------------------- Keyboard: every u16 word in every scancode state, both sets
     fn kb_words<D: Dec>(t: &mut Tally) {
         let prefixes: Vec<Vec<u8>> = if D::SET == 2 {
